@@ -77,11 +77,19 @@ def gen_config(rng, profile="any", tier="quick"):
         "fee": ({"kind": "zero"} if rng.random() < 0.4 else
                 {"kind": "pct", "c": rng.choice([0.0, 1e-4, 1e-3, 2.5e-3, 0.01]),
                  "t": rng.choice([0.0, 0.0, 5e-4, 5e-3])}),
+        "portfolio_id": rng.choice(["000001", "000001", "000001", "master", "p 1%"]),
+        # a second funded portfolio opened at the session's own broker (public API) before run()
+        "sleeve": rng.choice([None, None, None, None, 250000.0, 1234.56]),
         "burn_in": None,
         "data_via": rng.choice(["env", "handler_symbols", "handler_listdir"]),
         "adjust": True,
         "print_events": rng.random() < 0.08,       # the library's default is to print every event
     }
+    if rng.random() < 0.12:
+        # fee models built on the extension points: a ZeroFeeModel subclass that charges, a PercentFeeModel
+        # subclass overriding only the tax hook
+        cfg["fee"] = rng.choice([{"kind": "subzero", "c": rng.choice([1e-3, 0.01])},
+                                 {"kind": "subpct", "c": rng.choice([0.0, 1e-3]), "t": 0.5, "t2": rng.choice([0.0, 5e-3])}])
     # ---- universe -------------------------------------------------------------------------
     dynamic = rng.random() < (0.7 if profile == "C19" else 0.35)
     if profile == "C08":
@@ -109,6 +117,10 @@ def gen_config(rng, profile="any", tier="quick"):
                 entries[a] = None
         if all(e is None or e > end for e in entries.values()) and rng.random() < 0.8:
             entries[assets[0]] = start
+    if profile in ("C14", "C16", "C19", "any") and rng.random() < 0.15:
+        cfg["adjust"] = False                    # unadjusted prices: only possible with a handler of our own
+        if cfg["data_via"] == "env":
+            cfg["data_via"] = "handler_listdir"
     cfg["universe"] = {"kind": "dynamic", "entries": entries} if dynamic else {"kind": "static", "assets": list(assets)}
     if (not dynamic) and profile in ("C14", "C09", "any", "C07") and rng.random() < 0.25 and n_assets > 1:
         # a user-defined Universe (subclass of the documented extension point) from which assets LEAVE
@@ -119,6 +131,8 @@ def gen_config(rng, profile="any", tier="quick"):
         cfg["universe"] = {"kind": "leaving", "assets": list(assets), "leave": leave}
     if dynamic and rng.random() < 0.3:
         cfg["universe"]["absent_as_nat"] = True
+    if dynamic and rng.random() < 0.25:
+        cfg["universe"]["py_datetime"] = True
     if dynamic and rng.random() < 0.3:
         # the same instants, written down in other time zones (tz-aware timestamps are legal entry dates)
         cfg["universe"]["tz"] = dict((a, rng.choice(["US/Eastern", "Asia/Tokyo", "Europe/London", "UTC"])) for a in assets)
@@ -139,7 +153,9 @@ def gen_config(rng, profile="any", tier="quick"):
     n_market = len(cal.business_days(md0 * DAY, d1 * DAY))
     if rng.random() < 0.15:
         n_market = max(2, n_market - rng.randrange(1, 4))           # data end before the backtest does
-    market = mk.gen_market(rng, n_assets, md0, n_market, adjust=True, faults=faults,
+    if cfg["adjust"] is False and profile in ("C14", "any") and rng.random() < 0.5:
+        faults.append("empty_cell")
+    market = mk.gen_market(rng, n_assets, md0, n_market, adjust=cfg["adjust"], faults=faults,
                            low_priced_p=0.3 if profile == "C08" else 0.15)
     if rng.random() < 0.12 and profile != "C07":
         # a second listing of the first symbol in the same directory, with other prices; it is nobody's data
@@ -542,8 +558,15 @@ def build_session(cfg, dirpath, shared_source=None, shared_inputs=None):
         tzs = u.get("tz") or {}
         import pandas as _pd
         absent = _pd.NaT if u.get("absent_as_nat") else None      # "no entry date" written as NaT instead of None
-        universe = DynamicUniverse(dict((a, ((ts(e).tz_convert(tzs[a]) if tzs.get(a) else ts(e)) if e is not None else absent))
-                                        for a, e in u["entries"].items()))
+
+        def _entry(a, e):
+            if e is None:
+                return absent
+            t_ = ts(e).tz_convert(tzs[a]) if tzs.get(a) else ts(e)
+            if u.get("py_datetime") and e > -2000000000:
+                return t_.to_pydatetime()          # a plain tz-aware datetime.datetime
+            return t_
+        universe = DynamicUniverse(dict((a, _entry(a, e)) for a, e in u["entries"].items()))
     data_handler = None
     if shared_source is not None:
         data_handler = BacktestDataHandler(universe, data_sources=[shared_source])
@@ -556,14 +579,18 @@ def build_session(cfg, dirpath, shared_source=None, shared_inputs=None):
     else:
         os.environ["QSTRADER_CSV_DATA_DIR"] = dirpath
     fee = cfg["fee"]
-    fee_model = ZeroFeeModel() if fee["kind"] == "zero" else PercentFeeModel(commission_pct=fee["c"], tax_pct=fee["t"])
+    if fee["kind"] in ("subzero", "subpct"):
+        from .worlds.broker import make_sub_fee
+        fee_model = make_sub_fee(fee)
+    else:
+        fee_model = ZeroFeeModel() if fee["kind"] == "zero" else PercentFeeModel(commission_pct=fee["c"], tax_pct=fee["t"])
     a = cfg["alpha"]
     signals = None
     kwargs = {}
     if a["kind"] in ("topn", "sma", "invvol"):
         # the signals need a handler at construction; build one if the session would make its own
         if data_handler is None:
-            src = CSVDailyBarDataSource(dirpath, Equity)
+            src = CSVDailyBarDataSource(dirpath, Equity, adjust_prices=cfg.get("adjust", True))
             data_handler = BacktestDataHandler(universe, data_sources=[src])
         if a["kind"] == "topn":
             sigs = {"momentum": MomentumSignal(S, universe, lookbacks=[a["lookback"]])}
@@ -590,7 +617,7 @@ def build_session(cfg, dirpath, shared_source=None, shared_inputs=None):
         S, E, universe, alpha, signals=signals, initial_cash=cfg["initial_cash"], rebalance=cfg["rebalance"],
         long_only=cfg["long_only"], fee_model=fee_model,
         burn_in_dt=(ts(cfg["burn_in"]) if cfg["burn_in"] is not None else None),
-        data_handler=data_handler, **kwargs)
+        data_handler=data_handler, portfolio_id=cfg.get("portfolio_id", "000001"), **kwargs)
     return session, signals, universe
 
 
@@ -667,6 +694,10 @@ def _run_session(cfg, market, monitors, dirpath, shared_source, hooks, shared_in
             out.ctor_exc = (type(e).__name__, mask_ids(str(e))[:300])
             return out
         out.session = session
+        if cfg.get("sleeve"):
+            session.broker.subscribe_funds_to_account(cfg["sleeve"])
+            session.broker.create_portfolio("SLEEVE", "cash sleeve")
+            session.broker.subscribe_funds_to_portfolio("SLEEVE", cfg["sleeve"])
         if monitors:
             attach_monitors(session, out.rec, cfg)
         if hooks:
